@@ -775,6 +775,8 @@ class ConciliationState(_WorkingState):
 
         :return: the next Supvisors state.
         """
+        # the processes lost with a Supvisors instance are dealt with here too
+        super()._master_next()
         # check if jobs are in progress
         if self.supvisors.starter.in_progress() or self.supvisors.stopper.in_progress():
             return SupvisorsStates.CONCILIATION
